@@ -24,8 +24,8 @@ props = {}
 # ---------------- C01 / C08: parser ----------------
 parser_quick = [J("parser","VH_holes",1), J("parser","VH_holes",2), J("parser","VH_free",1), J("parser","VH_free",2)] + \
                [J("parser","VH_template",w) for w in (0,2,3,4,5,6,7,8,9,10,11,12,13,14,15,16,17,18,19,20)] + [J("parser","VH_reserved")]
-parser_quick += [J("parser","VH_mutate",pr,0) for pr in range(14)]
-parser_thorough = parser_quick + [J("parser","VH_mutate",pr,m) for pr in range(14) for m in (1,2)] + [J("parser","VH_free",3), J("parser","VH_template",1), J("parser","VH_holes",3, max_instrs=6000000)]
+parser_quick += [J("parser","VH_mutate",pr,0) for pr in range(14)] + [J("parser","VH_ops",3)]
+parser_thorough = parser_quick + [J("parser","VH_mutate",pr,m) for pr in range(14) for m in (1,2)] + [J("parser","VH_free",3), J("parser","VH_template",1), J("parser","VH_holes",3, max_instrs=6000000), J("parser","VH_ops",4, max_instrs=30000000)]
 props["C01"] = dict(title="Accepted programs get the syntax tree the documented grammar prescribes",
   bounds="real Parse() on: operand (hole operand)* ; with 1-2 (thorough 3) tokens of arbitrary type among all 50; 1-2 (thorough 3) fully arbitrary tokens; 21 statement/expression templates with 1-3 arbitrary tokens; 14 valid programs with every single token replaced by an arbitrary one (thorough: also one inserted / one deleted) (prefix, suffix chains, parentheses, dangling else, assignment chains, declarations, functions, for headers, literals, unary/power). Longer programs only through the composition argument of DESIGN §4",
   assumptions=["oracle: reference parser written from grammer.txt + the amendments stated in the property (DESIGN A.1, E.2)", "all tokens on one line (the parser's undocumented line-break rule inside declarations is outside the domain)", "'adding parentheses never changes what a program prints' is reduced to tree equality plus C18e (eval(Grouping e) = eval e)"]+A_COMMON[:1],
@@ -34,9 +34,9 @@ lexer_front = [J("lexer","VH_step",n,0) for n in (1,2,4)] + [J("lexer","VH_whole
 props["C08"] = dict(title="Front end is total, accepts exactly the documented language, runs nothing else",
   bounds="parser: as C01 (accept <=> reference accepts; first diagnostic at the reference's first non-viable token, read back from the unique lexeme in the diagnostic); lexer: totality and diagnostics of one scanToken step on n<=4 code points and whole scans n<=2; main: a rejected text is not executed (concrete lexical/syntax error scripts through the real main). Nesting depth 10 000 and fuzzed long texts are outside (host stack growth is not modelled)",
   assumptions=["oracle: reference recogniser from grammer.txt with the property's amendments; trailing comma in an object literal and the Latin name 'input' are treated as unspecified", "the 255/256 boundary is exercised by VH_long: calls, parameter lists and array literals of 254-257 (quick: 255/256) entries whose last entry and following token are of arbitrary type"]+A_COMMON[:1],
-  quick=parser_quick+lexer_front+[J("main","VH_outcome",0), J("main","VH_outcome",1)]+[J("parser","VH_long",0,256, max_instrs=400000000), J("parser","VH_long",1,255), J("parser","VH_long",1,256)],
+  quick=parser_quick+lexer_front+[J("main","VH_outcome",0), J("main","VH_outcome",1)]+[J("parser","VH_long",0,256, max_instrs=400000000), J("parser","VH_long",1,255), J("parser","VH_long",1,256), J("lexer","VH_integer",19, query_timeout_s=600), J("lexer","VH_integer",12)],
   thorough=parser_thorough+lexer_front+[J("lexer","VH_step",6,0), J("main","VH_outcome",0), J("main","VH_outcome",1)]+[J("parser","VH_long",k,n, max_instrs=400000000) for k in (0,1,2) for n in (254,255,256,257)],
-  only_ids="^(diagnostic-iff-flag|stdout-untouched|ungrammatical-sequence-is-rejected|grammatical-sequence-is-accepted|diagnostic-names-a-token-of-the-text|first-diagnostic-at-the-first-non-viable-token|bad-assignment-target-diagnosed-at-or-after-its-equals|progress|in-bounds|end|diag-.*|whole-flag|whole-diagnostics|front-end-error-.*|rejected-text-is-not-executed)$")
+  only_ids="^(diagnostic-iff-flag|stdout-untouched|ungrammatical-sequence-is-rejected|grammatical-sequence-is-accepted|diagnostic-names-a-token-of-the-text|first-diagnostic-at-the-first-non-viable-token|bad-assignment-target-diagnosed-at-or-after-its-equals|integer-literal-parses|integer-literal-is-one-token|progress|in-bounds|end|diag-.*|whole-flag|whole-diagnostics|front-end-error-.*|rejected-text-is-not-executed)$")
 
 # ---------------- C02 ----------------
 bin_quick = [J(I,"VH_binary",1,1,c) for c in range(8)] + [J(I,"VH_unary",1), J(I,"VH_equality",1,1), J(I,"VH_equality",0,0)] + [J(I,"VH_nested",c,s2) for c in (1,4,5,6) for s2 in (0,1,2)]
@@ -50,8 +50,8 @@ props["C02"] = dict(title="Operators compute the documented result for every com
 props["C03"] = dict(title="Names resolve through nested block scopes; shadowing and lifetime follow blocks",
   bounds="programs of 2 (thorough 3) top-level statements, nesting depth 1 (thorough 2), over declaration / assignment / read / block / for-header / function declaration / call, every name its own symbolic code point (all collision patterns), run through the real Interpret; recursion depth <= 2; plus VH_scopeLate: a function using a symbolic name, called before and after an arbitrary statement (which may introduce a nearer binding of that name) inside a block / function body / loop body; VH_paramShadow: a parameter bearing the name of any built-in, read and called in the function and in a nested function; VH_scopeBlockFn: a function declared in a block / for body / while body that declares nothing else",
   assumptions=["oracle: scope model of DESIGN E.6 (dynamic resolution through the closure chain, as the property's domain restriction allows)", "values are distinct concrete numbers; reads are print statements"]+A_COMMON[:2],
-  quick=[J(I,"VH_scope",1,1, loop_fuel=300), J(I,"VH_scope",2,1, loop_fuel=300), J(I,"VH_scope",3,0, loop_fuel=300), J(I,"VH_scopeFn",0), J(I,"VH_scopeLate",0, loop_fuel=300), J(I,"VH_scopeLate",1, loop_fuel=300), J(I,"VH_scopeLate",2, loop_fuel=300), J(I,"VH_paramShadow",0), J(I,"VH_paramShadow",1)]+[J(I,"VH_scopeBlockFn",c, loop_fuel=300) for c in (0,1,2)],
-  thorough=[J(I,"VH_scopeBlockFn",c, loop_fuel=300) for c in (0,1,2)]+[J(I,"VH_paramShadow",0), J(I,"VH_paramShadow",1), J(I,"VH_scopeLate",0, loop_fuel=300), J(I,"VH_scopeLate",1, loop_fuel=300), J(I,"VH_scopeLate",2, loop_fuel=300), J(I,"VH_scope",1,2, loop_fuel=300), J(I,"VH_scope",2,1, loop_fuel=300), J(I,"VH_scope",3,1, loop_fuel=300), J(I,"VH_scope",3,0, loop_fuel=300), J(I,"VH_scopeFn",0)])
+  quick=[J(I,"VH_scope",1,1, loop_fuel=300), J(I,"VH_scope",2,1, loop_fuel=300), J(I,"VH_scope",3,0, loop_fuel=300), J(I,"VH_scopeFn",0), J(I,"VH_scopeLate",0, loop_fuel=300), J(I,"VH_scopeLate",1, loop_fuel=300), J(I,"VH_scopeLate",2, loop_fuel=300), J(I,"VH_paramShadow",0), J(I,"VH_paramShadow",1), J(I,"VH_factoryPlacement")]+[J(I,"VH_scopeBlockFn",c, loop_fuel=300) for c in (0,1,2)],
+  thorough=[J(I,"VH_factoryPlacement")]+[J(I,"VH_scopeBlockFn",c, loop_fuel=300) for c in (0,1,2)]+[J(I,"VH_paramShadow",0), J(I,"VH_paramShadow",1), J(I,"VH_scopeLate",0, loop_fuel=300), J(I,"VH_scopeLate",1, loop_fuel=300), J(I,"VH_scopeLate",2, loop_fuel=300), J(I,"VH_scope",1,2, loop_fuel=300), J(I,"VH_scope",2,1, loop_fuel=300), J(I,"VH_scope",3,1, loop_fuel=300), J(I,"VH_scope",3,0, loop_fuel=300), J(I,"VH_scopeFn",0)])
 
 # ---------------- C04 / C05 / C06 ----------------
 stmt_quick = [J(I,"VH_stmt",0,1,3, loop_fuel=400), J(I,"VH_stmt",1,1,3, loop_fuel=400)]
@@ -61,20 +61,20 @@ order_faulty = [J(I,"VH_order",w,0,2) for w in (0,3,4,5,6,7,14)]
 props["C04"] = dict(title="Calls bind arguments by position, return exactly; closures own captured state",
   bounds="function bodies { S ; tail } with S every statement shape of nesting depth 1 (thorough 2) over probe, print, break, continue, return, if, if/else, while, for, block; 3 (thorough up to 5) outcomes per probe (loops of more iterations are outside); call node with 3 argument probes of every kind; closure programs of VH_closure (counter factory, two closures over one variable, recursion to depth 3, every interleaving of 3 calls; VH_reentrant: a 2-3 parameter call site re-entered through any argument position to depth 1-3, twice; VH_loopClosure: closures made by 3 iterations of a while/for loop, declared directly in the body or in a bare block / if-block / inner loop inside it, called after the loop in any order)",
   assumptions=["oracle: reference semantics refExec (DESIGN E.3); a break/continue escaping a function body is unspecified"]+A_PROBE+A_COMMON[:1],
-  quick=[stmt_quick[1], J(I,"VH_order",3,0,0), J(I,"VH_closure",0), J(I,"VH_closure",1), J(I,"VH_closure",2), J(I,"VH_arity"), J(I,"VH_scopeFn",0), J(I,"VH_reentrant"), J(I,"VH_loopClosure")],
-  thorough=[s for s in stmt_thorough if s["args"][0]==1]+[J(I,"VH_order",3,0,0), J(I,"VH_order",3,1,0), J(I,"VH_closure",0), J(I,"VH_closure",1), J(I,"VH_closure",2), J(I,"VH_arity"), J(I,"VH_reentrant"), J(I,"VH_loopClosure")],
+  quick=[stmt_quick[1], J(I,"VH_order",3,0,0), J(I,"VH_closure",0), J(I,"VH_closure",1), J(I,"VH_closure",2), J(I,"VH_arity"), J(I,"VH_scopeFn",0), J(I,"VH_reentrant"), J(I,"VH_loopClosure"), J(I,"VH_factoryPlacement"), J(I,"VH_manyCalls",140000, loop_fuel=2000000, max_instrs=2000000000)],
+  thorough=[s for s in stmt_thorough if s["args"][0]==1]+[J(I,"VH_order",3,0,0), J(I,"VH_order",3,1,0), J(I,"VH_closure",0), J(I,"VH_closure",1), J(I,"VH_closure",2), J(I,"VH_arity"), J(I,"VH_reentrant"), J(I,"VH_loopClosure"), J(I,"VH_factoryPlacement"), J(I,"VH_manyCalls",300000, loop_fuel=2000000, max_instrs=2000000000)],
   only_ids="^(evaluation-sequence-as-reference|evaluations-match-reference|all-reference-events-happened|print-matches-reference|call-.*|failed-call-yields-nil|argument-.*|arguments-arrive-by-position|callee-entered-.*|closure-.*|arity-.*|recursion-.*|read-.*|diagnostic-expected-by-the-scope-model|every-expected-read-happened|scope-error-reported)$")
 props["C05"] = dict(title="Branches and loops run exactly the arms and iterations their conditions dictate",
   bounds="top-level programs { S ; tail } with S every statement shape of nesting depth 1 (thorough 2); 3 (thorough up to 5) outcomes per probe: loops of more iterations are outside the bound (cut and counted)",
   assumptions=["oracle: reference semantics refExec (DESIGN E.3)"]+A_PROBE+A_COMMON[:1],
-  quick=[stmt_quick[0], J(I,"VH_conditions",0)], thorough=[s for s in stmt_thorough if s["args"][0]==0]+[J(I,"VH_conditions",0), J(I,"VH_conditions",1)],
+  quick=[stmt_quick[0], J(I,"VH_conditions",0), J(I,"VH_conditions",1)], thorough=[s for s in stmt_thorough if s["args"][0]==0]+[J(I,"VH_conditions",0), J(I,"VH_conditions",1)],
   only_ids="^(evaluation-sequence-as-reference|evaluations-match-reference|all-reference-events-happened|print-matches-reference|stray-signal-diagnosed-after-all-evaluations|missing-diagnostic|diagnostic-only-when-expected|truthy-.*|falsy-.*|cond-.*)$")
 props["C06"] = dict(title="A runtime error stops the program: true cause, right line, nothing afterwards",
   bounds="as C04/C05 (every statement shape, failing probe at every position and invocation), every expression node kind with probe operands of every value kind, exit status through the real main on concrete faulty scripts; diagnostics that quote user text holding a '%' (VH_diagQuoted); non-termination after a diagnostic is detected by loop fuel and confirmed by a native run that does not finish",
   assumptions=["'describes that operation' is checked as: the first diagnostic is the one produced for the planted fault and names its line"]+A_PROBE+A_COMMON[:1],
-  quick=stmt_quick+order_all+order_faulty+[J("main","VH_outcome",2), J("main","VH_outcome",3), J("main","VH_outcome",4), J(I,"VH_scope",1,1, loop_fuel=300)]+[J(I,"VH_diagQuoted",w) for w in range(3)],
-  thorough=stmt_thorough+order_all+order_faulty+[J(I,"VH_order",w,1,0) for w in range(15)]+[J(I,"VH_order",w,1,2) for w in (0,3,4,5,6,7,14)]+[J("main","VH_outcome",2), J("main","VH_outcome",3), J("main","VH_outcome",4), J(I,"VH_scope",2,1, loop_fuel=300)]+[J(I,"VH_diagQuoted",w) for w in range(3)],
-  only_ids="^(no-evaluation-after-first-diagnostic|nothing-printed-after-first-diagnostic|nothing-evaluated-after-first-diagnostic|first-diagnostic-.*|stray-signal-diagnostic-names-its-line|terminates-after-diagnostic|flag-iff-diagnostic|no-operand-evaluated-after-diagnostic|callee-not-entered-after-diagnostic|nothing-printed-after-diagnostic|diagnostic-sets-flag|no-diagnostic-no-flag|runtime-error-.*|missing-diagnostic)$")
+  quick=stmt_quick+order_all+order_faulty+[J("main","VH_outcome",2), J("main","VH_outcome",3), J("main","VH_outcome",4), J(I,"VH_scope",1,1, loop_fuel=300)]+[J(I,"VH_diagQuoted",w) for w in range(4)]+[J(I,"VH_scope",2,1, loop_fuel=300)],
+  thorough=stmt_thorough+order_all+order_faulty+[J(I,"VH_order",w,1,0) for w in range(15)]+[J(I,"VH_order",w,1,2) for w in (0,3,4,5,6,7,14)]+[J("main","VH_outcome",2), J("main","VH_outcome",3), J("main","VH_outcome",4), J(I,"VH_scope",2,1, loop_fuel=300)]+[J(I,"VH_diagQuoted",w) for w in range(4)],
+  only_ids="^(no-evaluation-after-first-diagnostic|nothing-printed-after-first-diagnostic|nothing-evaluated-after-first-diagnostic|first-diagnostic-.*|stray-signal-diagnostic-names-its-line|terminates-after-diagnostic|flag-iff-diagnostic|no-operand-evaluated-after-diagnostic|callee-not-entered-after-diagnostic|nothing-printed-after-diagnostic|diagnostic-sets-flag|no-diagnostic-no-flag|runtime-error-.*|missing-diagnostic|scope-error-reported|diagnostic-expected-by-the-scope-model)$")
 
 # ---------------- C09 / C10 ----------------
 kw_near = [J("lexer","VH_kwNear",k,m) for k in range(15) for m in (0,1,2)]
@@ -84,7 +84,7 @@ props["C09"] = dict(title="Tokens are a faithful maximal-munch partition of the 
   quick=[J("lexer","VH_step",n,c) for (n,c) in ((1,0),(2,0),(4,0),(6,0),(6,2))]+[J("lexer","VH_whole",1), J("lexer","VH_whole",2)]+kw_near,
   thorough=kw_near+[J("lexer","VH_step",n,c) for (n,c) in ((1,0),(2,0),(3,0),(5,0),(7,0),(8,0),(8,1),(8,3))]+[J("lexer","VH_whole",n) for n in (1,2,3)],
   selftest=[J("lexer","VH_selftest")])
-overflow_jobs = [J("lexer","VH_overflow",310,0), J("lexer","VH_overflow",309,1), J("lexer","VH_overflow",310,2), J("lexer","VH_overflow",312,2)]
+overflow_jobs = [J("lexer","VH_fraction",0), J("lexer","VH_fraction",1), J("lexer","VH_overflow",310,0), J("lexer","VH_overflow",309,1), J("lexer","VH_overflow",310,2), J("lexer","VH_overflow",312,2)]
 props["C10"] = dict(title="Numeric literals denote the correctly rounded value in either digit script",
   bounds="isDigit on all 2^32 code points; transliteration of every single code point and of texts of <=3 (thorough 5) code points; the number branch of scanToken on n<=6 code points (extent, dot rule, ParseFloat applied to the transliterated lexeme, range error => diagnostic and no token); digit-script swap on n<=3 (thorough 5); integer literals of 3, 12 and 19 (thorough also 18) digits of either script against the exact rounding contract; four literals that sit exactly halfway between adjacent doubles (44-59 characters) extended by 1-2 (thorough 1-4) arbitrary digits of either script: the value must be ParseFloat of the whole transliterated lexeme",
   assumptions=["strconv.ParseFloat is uninterpreted except in VH_integer, where the stub carries its documented contract for integer numerals of <= 19 digits (round-to-nearest-even of the exact value), so 'denotes the nearest double' IS decided for integer literals up to 19 digits and any way of computing the literal must agree with it; for fractions and longer literals what is decided is that the literal is ParseFloat of exactly the transliterated lexeme (VH_number, VH_midpoint: the stub is an uninterpreted function of the text, so a lexer that passes it a prefix or a re-rendered numeral is refuted, and midpoint literals make the counterexample's digits matter natively); that ParseFloat itself rounds fractions correctly and detects overflow remains strconv's (not decided); numerals of digits / digits.digits up to 120 characters never fail and are never NaN (documented)", "VH_integer uses the position-wise summary of ConvertBanglaDigitsToASCII justified by VH_translit1/VH_translitN (which run the real function)"]+A_COMMON[:1],
@@ -96,26 +96,26 @@ props["C10"] = dict(title="Numeric literals denote the correctly rounded value i
 props["C11"] = dict(title="Arrays are bounds-checked shared references; len/append/remove are pure sequence ops",
   bounds="histories of 1 (thorough 2) operations on up to three variables (two possibly aliased) over an initial array of 0-3 elements: indexed write/read with an index value of arbitrary kind (unconstrained doubles), length, append of 1 or 2 values, remove at an arbitrary index value; all variables compared with the list model after every step; plus one step of append/append/remove/write from an array of n elements (0-200, thorough to 1100, around every power of two) with 0-64 (thorough 600) spare slots behind them (VH_arrayBig)",
   assumptions=["oracle: list model of DESIGN E.7", "a string index that is an integer numeral is coerced by the code and not mentioned by the statement: not asserted", "A-growslice: append follows runtime.growslice of go1.23 (size-class rounding)"]+A_VALUES+A_COMMON[:3],
-  quick=[J(I,"VH_array",1,s) for s in (0,1,3)]+[J(I,"VH_array",2,2), J(I,"VH_array",2,3)]+[J(I,"VH_arrayBig",n,sp) for n in (0,1,3,5,7,31,32,33,63,64,65,127,128,129,200) for sp in (0,1,7,64)],
-  thorough=[J(I,"VH_arrayBig",n,sp) for n in (0,1,2,3,5,6,7,8,9,15,16,17,31,32,33,63,64,65,100,127,128,129,255,256,257,511,512,513,1023,1024,1025,1100) for sp in (0,1,7,64,600)]+[J(I,"VH_array",1,s) for s in (0,1,2,3)]+[J(I,"VH_array",2,s) for s in (1,2,3)]+[J(I,"VH_array",3,2, max_instrs=8000000)])
-obj_ids13 = "initialisers-run-in-source-order|every-initialiser-ran-once|same-listing-every-time|diagnostic-text-repeats|initialisers-run-in-the-same-order-every-time|same-output-every-time|duplicate-key-.*|each-read-consumes-exactly-the-next-line|reads-succeed"
+  quick=[J(I,"VH_array",1,s) for s in (0,1,3)]+[J(I,"VH_array",2,2), J(I,"VH_array",2,3)]+[J(I,"VH_stringIndex",o) for o in range(3)]+[J(I,"VH_arrayBig",n,sp) for n in (0,1,3,5,7,31,32,33,63,64,65,127,128,129,200) for sp in (0,1,7,64)],
+  thorough=[J(I,"VH_stringIndex",o) for o in range(3)]+[J(I,"VH_arrayBig",n,sp) for n in (0,1,2,3,5,6,7,8,9,15,16,17,31,32,33,63,64,65,100,127,128,129,255,256,257,511,512,513,1023,1024,1025,1100) for sp in (0,1,7,64,600)]+[J(I,"VH_array",1,s) for s in (0,1,2,3)]+[J(I,"VH_array",2,s) for s in (1,2,3)]+[J(I,"VH_array",3,2, max_instrs=8000000)])
+obj_ids13 = "initialisers-run-in-source-order|every-initialiser-ran-once|same-listing-every-time|diagnostic-text-repeats|initialisers-run-in-the-same-order-every-time|same-output-every-time|duplicate-key-.*|each-read-consumes-exactly-the-next-line|reads-succeed|constant-literal-program-parses|missing-diagnostic"
 props["C12"] = dict(title="Objects are shared key->value maps with consistent read, write, delete, listing",
   bounds="object literals with 0-3 distinct keys parsed by the real parser, then histories of 1 (thorough 2) operations (read/write/delete of present and absent keys through either alias, key and value listing, print, property access on a non-object); every Go map range takes a fresh iteration order (rotations of insertion order; thorough: all permutations)",
   assumptions=["oracle: map model of DESIGN E.7", "A-maporder: counterexamples are searched over the orders the go1.23 runtime produces for small maps (rotations); thorough additionally explores every permutation"]+A_COMMON[:3],
-  quick=[J(I,"VH_object",k,1) for k in (0,1,2,3)]+[J(I,"VH_printShared",w) for w in (1,2,3,4)], thorough=[J(I,"VH_printShared",w) for w in (1,2,3,4)]+[J(I,"VH_object",k,s, all_perms=True) for k in (0,1,2,3) for s in (1,2)],
+  quick=[J(I,"VH_object",k,1) for k in (0,1,2,3)]+[J(I,"VH_printShared",w) for w in (1,2,3,4)]+[J(I,"VH_objectBig",9, map_orders=2), J(I,"VH_objectBig",16, map_orders=2)], thorough=[J(I,"VH_objectBig",n, map_orders=3) for n in (7,8,9,16,33)]+[J(I,"VH_printShared",w) for w in (1,2,3,4)]+[J(I,"VH_object",k,s, all_perms=True) for k in (0,1,2,3) for s in (1,2)],
   skip_ids="^("+obj_ids13+")$")
 props["C13"] = dict(title="Execution is deterministic",
   bounds="every range-over-map site reachable in the repo (object literal evaluation, key listing, value listing, ObjectLiteral.String in the missing-property diagnostic) with 2-3 keys (also with one name written twice: VH_dupKeys), each loop under an independent iteration order; two reads of a CRLF stdin under every way the operating system may cut the bytes into reads, when the line splitting is the repository's own code (VH_inputCRLF); plus the static inventory of nondeterminism sources (any call outside the modelled stubs makes the run inconclusive)",
   assumptions=["A-maporder as C12", "the clock built-in is excluded by the property", "other sources (goroutines, select, rand, pointer formatting) are excluded by inventory: the executor refuses any callee without a model"],
-  quick=[J(I,"VH_object",k,1) for k in (2,3)]+[J(I,"VH_diagText",2), J(I,"VH_diagText",3), J(I,"VH_dupKeys",2), J(I,"VH_dupKeys",3), J("main","VH_inputCRLF",2)],
-  thorough=[J("main","VH_inputCRLF",2), J(I,"VH_dupKeys",2, all_perms=True), J(I,"VH_dupKeys",3, all_perms=True)]+[J(I,"VH_object",k,s, all_perms=True) for k in (2,3) for s in (1,2)]+[J(I,"VH_diagText",2, all_perms=True), J(I,"VH_diagText",3, all_perms=True)],
+  quick=[J(I,"VH_object",k,1) for k in (2,3)]+[J(I,"VH_diagText",2), J(I,"VH_diagText",3), J(I,"VH_dupKeys",2), J(I,"VH_dupKeys",3), J("main","VH_inputCRLF",2), J(I,"VH_constInit",2), J(I,"VH_constInit",3)],
+  thorough=[J(I,"VH_constInit",2, all_perms=True), J(I,"VH_constInit",3, all_perms=True), J("main","VH_inputCRLF",2), J(I,"VH_dupKeys",2, all_perms=True), J(I,"VH_dupKeys",3, all_perms=True)]+[J(I,"VH_object",k,s, all_perms=True) for k in (2,3) for s in (1,2)]+[J(I,"VH_diagText",2, all_perms=True), J(I,"VH_diagText",3, all_perms=True)],
   only_ids="^("+obj_ids13+")$")
 
 # ---------------- C14 ----------------
 props["C14"] = dict(title="Operands are evaluated once, left to right; logic short-circuits on truthiness",
   bounds="every operand-carrying node kind (binary, unary, grouping, call with 3 arguments, array literal with 3 elements, index read/write, property read/write, assignment, print, declaration, expression statement, if condition) with probe operands of every value kind; logical and/or with both spellings; isTruthy on every kind with payload size 0-1 (thorough 2)",
   assumptions=["oracle: truthiness table of DESIGN E.5", "object-literal initialiser order is C13"]+A_PROBE+A_VALUES,
-  quick=[J(I,"VH_truthy",0), J(I,"VH_truthy",1)]+order_all+[J(I,"VH_logical",s,o) for s in (0,1) for o in (0,1)]+[J(I,"VH_conditions",0)],
+  quick=[J(I,"VH_truthy",0), J(I,"VH_truthy",1)]+order_all+[J(I,"VH_logical",s,o) for s in (0,1) for o in (0,1)]+[J(I,"VH_conditions",0)]+[J(I,"VH_orderIdent",w) for w in range(3)],
   thorough=[J(I,"VH_truthy",s) for s in (0,1,2)]+order_all+[J(I,"VH_order",w,1,0) for w in range(15)]+[J(I,"VH_logical",s,o) for s in (0,1) for o in (0,1)]+[J(I,"VH_conditions",0), J(I,"VH_conditions",1)],
   only_ids="^(truthiness|operand-evaluated-in-reading-order-once|every-operand-evaluated|callee-entered-after-all-arguments|callee-entered-exactly-once|left-evaluated-once|right-.*|result-is-.*|logical-.*|truthy-.*|falsy-.*|node-returns-a-signal)$")
 
@@ -123,14 +123,14 @@ props["C14"] = dict(title="Operands are evaluated once, left to right; logic sho
 props["C15"] = dict(title="print writes each value faithfully, newline-terminated, consistent with +",
   bounds="the real PrintStatement on every value kind (payload size 0-1, thorough 2), strings nested in arrays and objects (1-2 code points below U+0300, where NFC is the identity; and four concrete texts NFC rewrites — composing accent, composition-excluded U+09DF/U+09DC, two-part vowel sign — as printed string, array element, property value and property name: the whole line must be its own NFC), and the text + splices for numbers and strings (C02's concatenation obligations)",
   assumptions=["NOT decided: that fmt's %v of a float64 is the shortest round-trip numeral with no exponent below 10^6 (fmtF is uninterpreted) and that norm.NFC is NFC (uninterpreted above U+02FF)", "containers: format-agnostic — the text must contain every element / key and value, in order"]+A_VALUES+A_COMMON[:2],
-  quick=[J(I,"VH_print",0,0), J(I,"VH_print",1,0), J(I,"VH_printNested",1,0), J(I,"VH_printNested",1,1), J(I,"VH_printNested",0,0), J(I,"VH_printShared",0), J(I,"VH_printShared",1), J(I,"VH_printShared",2), J(I,"VH_printShared",3), J(I,"VH_printShared",4), J(I,"VH_binary",1,1,0)]+[J(I,"VH_printNFC",w) for w in range(5)],
-  thorough=[J(I,"VH_print",s,r) for s in (0,1,2) for r in (0,1)]+[J(I,"VH_printNested",n,o) for n in (0,1,2) for o in (0,1)]+[J(I,"VH_printShared",w) for w in range(5)]+[J(I,"VH_printNFC",w) for w in range(5)]+[J(I,"VH_binary",a,b,0) for (a,b) in ((0,0),(1,1),(2,1))],
+  quick=[J(I,"VH_print",0,0), J(I,"VH_print",1,0), J(I,"VH_printNested",1,0), J(I,"VH_printNested",1,1), J(I,"VH_printNested",0,0), J(I,"VH_printShared",0), J(I,"VH_printShared",1), J(I,"VH_printShared",2), J(I,"VH_printShared",3), J(I,"VH_printShared",4), J(I,"VH_binary",1,1,0)]+[J(I,"VH_printNFC",w) for w in range(5)]+[J(I,"VH_printVsConcat",p) for p in range(19)],
+  thorough=[J(I,"VH_print",s,r) for s in (0,1,2) for r in (0,1)]+[J(I,"VH_printNested",n,o) for n in (0,1,2) for o in (0,1)]+[J(I,"VH_printShared",w) for w in range(5)]+[J(I,"VH_printNFC",w) for w in range(5)]+[J(I,"VH_printVsConcat",p) for p in range(19)]+[J(I,"VH_binary",a,b,0) for (a,b) in ((0,0),(1,1),(2,1))],
   only_ids="^(print-.*|printed-.*|nested-.*|bin-string-result|bin-result-is-string)$")
 props["C16"] = dict(title="A value behaves the same however it was produced",
   bounds="11 consumers (both operand positions of every binary operator, unary operators, condition, print alone / inside an array, array index, math built-in argument, object property round trip, delete key, self-equality) run on two host representations of the same value: string vs rune slice (1 code point; thorough 0-2), float64 vs int64, float64 vs int (|n| <= 2^53), and the result of each of 16 producers (every math built-in, length, bitwise/shift/not, addition, modulo, concatenation, run on symbolic arguments) vs the canonical float64/string of the same value; representation pairs come from the reachable-kind inventory and from what the producers actually yield; plus 6 node kinds evaluated with operands as computed expressions vs as literal nodes, so the check is as wide as the tree's representations",
   assumptions=["a pair that the tree cannot produce is not checked (premise false)"]+A_VALUES+A_COMMON[:3],
-  quick=[J(I,"VH_rel",c,1,w) for c in (0,1,2) for w in range(11)]+[J(I,"VH_rel",3,p,w) for p in range(16) for w in (0,3,4,6,7)]+[J(I,"VH_relExpr",w,1,3) for w in range(6)]+[J("main","VH_inputOrigin")],
-  thorough=[J(I,"VH_rel",c,n,w) for c in (0,1,2) for w in range(11) for n in ((0,1,2) if c==0 else (1,))]+[J(I,"VH_rel",3,p,w) for p in range(16) for w in range(11)]+[J(I,"VH_relExpr",w,sz,5) for w in range(6) for sz in (0,1,2)]+[J("main","VH_inputOrigin")])
+  quick=[J(I,"VH_rel",c,1,w) for c in (0,1,2) for w in range(11)]+[J(I,"VH_rel",3,p,w) for p in range(19) for w in (0,3,4,6,7)]+[J(I,"VH_math",w,n) for w in (0,1,2,7,8) for n in (1,2)]+[J(I,"VH_relExpr",w,1,3) for w in range(6)]+[J("main","VH_inputOrigin")],
+  thorough=[J(I,"VH_rel",c,n,w) for c in (0,1,2) for w in range(11) for n in ((0,1,2) if c==0 else (1,))]+[J(I,"VH_rel",3,p,w) for p in range(19) for w in range(11)]+[J(I,"VH_math",w,n) for w in (0,1,2,7,8) for n in (1,2)]+[J(I,"VH_relExpr",w,sz,5) for w in range(6) for sz in (0,1,2)]+[J("main","VH_inputOrigin")])
 
 # ---------------- C17 ----------------
 props["C17"] = dict(title="Math built-ins compute their mathematical function; misuse is a reported error",
@@ -143,16 +143,16 @@ props["C17"] = dict(title="Math built-ins compute their mathematical function; m
 props["C18"] = dict(title="Meaning is invariant under layout, digit script, synonyms, renaming, parentheses",
   bounds="(a) a blank/tab/CR/LF/line comment/block comment inserted at every chunk boundary of sources of n<=2 code points (whole scans, relational) plus C09's step lemma for longer texts; (b) digit-script swap on number chunks of n<=3 (thorough 5) and on numeric strings at run time; (c) both spellings of and/or in the lexer (C09) and in eval(Logical); (d) every name a symbolic code point in the scope programs of C03; (e) eval(Grouping P) = eval(P) for every outcome of P, and the parser yields Grouping for parentheses (C01 template); (f) unselected arms / function bodies / code after return are never evaluated (C04/C05 reference traces), and a declaration added after the থামো / ফেরত that ends a loop body or a block in a function body changes neither output nor failure (VH_deadCode, all names symbolic)",
   assumptions=["whole-program composition of the six families is by the argument of DESIGN §4", "diagnostics quoting source text (renamed identifiers, '(group …)' in the missing-property message) are compared on line and message template only"],
-  quick=[J("lexer","VH_blank",1), J("lexer","VH_blank",2), J("lexer","VH_swap",3), J(I,"VH_logical",0,0), J(I,"VH_logical",0,1), J(I,"VH_grouping",0), J(I,"VH_grouping",1), J(I,"VH_scope",2,1, loop_fuel=300), J("parser","VH_template",2), stmt_quick[0]]+[J(I,"VH_relExpr",w,1,5) for w in (0,1,3)]+[J(I,"VH_deadCode",w, loop_fuel=300) for w in (0,1,2)],
-  thorough=[J("lexer","VH_blank",n) for n in (1,2,3)]+[J("lexer","VH_swap",5), J(I,"VH_swapNum",2), J(I,"VH_logical",1,0), J(I,"VH_logical",1,1), J(I,"VH_grouping",0), J(I,"VH_grouping",1), J(I,"VH_grouping",2), J(I,"VH_scope",3,1, loop_fuel=300), J("parser","VH_template",2)]+stmt_thorough+[J(I,"VH_deadCode",w, loop_fuel=300) for w in (0,1,2)],
-  only_ids="^(dead-code-.*|literal-operand-.*|layout-.*|swap-.*|logical-.*|result-is-.*|right-.*|left-evaluated-once|grouping-.*|read-.*|diagnostic-expected-by-the-scope-model|every-expected-read-happened|scope-error-reported|tree-is-the-reference-tree|evaluation-sequence-as-reference|evaluations-match-reference)$")
+  quick=[J("lexer","VH_blank",1), J("lexer","VH_blank",2), J("lexer","VH_swap",3), J(I,"VH_logical",0,0), J(I,"VH_logical",0,1), J(I,"VH_grouping",0), J(I,"VH_grouping",1), J(I,"VH_scope",2,1, loop_fuel=300), J("parser","VH_template",2), stmt_quick[0]]+[J(I,"VH_relExpr",w,1,5) for w in (0,1,3)]+[J(I,"VH_deadCode",w, loop_fuel=300) for w in (0,1,2)]+[J(I,"VH_rename")],
+  thorough=[J("lexer","VH_blank",n) for n in (1,2,3)]+[J("lexer","VH_swap",5), J(I,"VH_swapNum",2), J(I,"VH_logical",1,0), J(I,"VH_logical",1,1), J(I,"VH_grouping",0), J(I,"VH_grouping",1), J(I,"VH_grouping",2), J(I,"VH_scope",3,1, loop_fuel=300), J("parser","VH_template",2)]+stmt_thorough+[J(I,"VH_deadCode",w, loop_fuel=300) for w in (0,1,2)]+[J(I,"VH_rename")],
+  only_ids="^(renamed-program-runs|renaming-does-not-change-what-is-printed|dead-code-.*|literal-operand-.*|layout-.*|swap-.*|logical-.*|result-is-.*|right-.*|left-evaluated-once|grouping-.*|read-.*|diagnostic-expected-by-the-scope-model|every-expected-read-happened|scope-error-reported|tree-is-the-reference-tree|evaluation-sequence-as-reference|evaluations-match-reference)$")
 
 # ---------------- C19 / C20 ----------------
 props["C19"] = dict(title="Exit status and output streams classify every run correctly",
   bounds="the real main/runFile/run with 0-3 extra arguments, script names of 1-4 code points over {a,b,n,.,/} (every extension shape), present/absent file, one concrete script per outcome class (clean, lexical error, syntax error, runtime error at top level and inside a loop), scripts of 1-2 (thorough 3) lines drawn from a pool of 12 (clean, 6 lexical/syntax errors incl. literals no double can hold, 3 runtime errors) classified by first principles (VH_classify), and stdin of 0-3 lines with/without final newline read by two input calls, the kernel handing the lines over in chunks of every size",
   assumptions=["A-os: os.Args / os.ReadFile / os.Exit / filepath.Ext are modelled (Ext exactly, on code points); A-stdin: a bufio.Reader pulls a chunk of 1..all remaining lines and keeps the rest in that reader object", "the whole pipeline runs on concrete scripts here; the per-phase contracts are C08/C09/C06", "natively the scenarios are replayed through the built binary"],
-  quick=[J("main","VH_cli",0,1), J("main","VH_cli",1,3), J("main","VH_cli",1,4), J("main","VH_cli",2,2), J("main","VH_cli",3,1)]+[J("main","VH_outcome",c) for c in range(5)]+[J("main","VH_input",n,f) for n in (0,1,2,3) for f in (0,1)]+[J("main","VH_classify",1), J("main","VH_classify",2), J("main","VH_inputCRLF",2)],
-  thorough=[J("main","VH_inputCRLF",2), J("main","VH_classify",1), J("main","VH_classify",2), J("main","VH_classify",3)]+[J("main","VH_cli",0,1)]+[J("main","VH_cli",1,n) for n in (1,2,3,4,5)]+[J("main","VH_cli",2,2), J("main","VH_cli",3,1)]+[J("main","VH_outcome",c) for c in range(5)]+[J("main","VH_input",n,f) for n in (0,1,2,3) for f in (0,1)])
+  quick=[J("main","VH_cli",0,1), J("main","VH_cli",1,3), J("main","VH_cli",1,4), J("main","VH_cli",2,2), J("main","VH_cli",3,1)]+[J("main","VH_outcome",c) for c in range(5)]+[J("main","VH_input",n,f) for n in (0,1,2,3) for f in (0,1)]+[J("main","VH_classify",1), J("main","VH_classify",2), J("main","VH_inputCRLF",2)]+[J("main","VH_inputLong",n) for n in (4095,4096,4097,9000)],
+  thorough=[J("main","VH_inputLong",n) for n in (4095,4096,4097,8192,9000,70000)]+[J("main","VH_inputCRLF",2), J("main","VH_classify",1), J("main","VH_classify",2), J("main","VH_classify",3)]+[J("main","VH_cli",0,1)]+[J("main","VH_cli",1,n) for n in (1,2,3,4,5)]+[J("main","VH_cli",2,2), J("main","VH_cli",3,1)]+[J("main","VH_outcome",c) for c in range(5)]+[J("main","VH_input",n,f) for n in (0,1,2,3) for f in (0,1)])
 props["C20"] = dict(title="In the REPL a failed line never affects later lines; expression values echo",
   bounds="the real runPrompt/run on sessions of 1-2 (thorough 3) lines drawn from a pool of 8 representative lines (bare expression, print, lexical error, syntax error, two runtime errors, declaration, built-in call): plus sessions that repeat one line 12 (thorough 40) times before any other line (state building up over a session); plus sessions whose first line is 4095-4097 or 70000 bytes long (thorough: around 8192 and 65536, and 140000) followed by two lines (VH_replLong: buffer boundaries of the line reader); the session's stdout/stderr must be the concatenation of the responses each line gives as the only line of a fresh process (package-level state restored to its post-initialisation value)",
   assumptions=["A-stdin: bufio.Scanner delivers one line per Scan unless the line reaches its token limit (64 KB unless Buffer raises it), after which Scan reports false; bufio.Reader.ReadLine hands out pieces of at most 4096 bytes", "lines that call the input built-in are outside the property's pool"],
@@ -164,8 +164,8 @@ props["C07"] = dict(title="No program can make the interpreter terminate abnorma
   assumptions=["unbounded user recursion ends in a host stack overflow: excluded by the property's domain", "fmt on a self-containing slice/map is modelled as what it is: unbounded recursion ending in a runtime abort (VH_cyclic)", "allocation failure and faults inside stubbed library code are outside"],
   quick=[J(I,"VH_cyclic",w) for w in range(4)], thorough=[J(I,"VH_cyclic",w) for w in range(4)], panics_only=True, include=[p for p in ["C01","C02","C03","C04","C05","C06","C08","C09","C10","C11","C12","C14","C15","C16","C17","C18","C19","C20"]])
 
-props["C02"]["quick"] += [J(I,"VH_powWhole",k) for k in range(6)]
-props["C02"]["thorough"] += [J(I,"VH_powWhole",k) for k in range(6)]
+props["C02"]["quick"] += [J(I,"VH_powWhole",k) for k in range(6)] + [J(I,"VH_concatTwice",0), J(I,"VH_concatTwice",1)]
+props["C02"]["thorough"] += [J(I,"VH_powWhole",k) for k in range(6)] + [J(I,"VH_concatTwice",0), J(I,"VH_concatTwice",1)]
 props["C01"]["selftest"] = [J("parser","VH_selftest")]
 props["C08"]["selftest"] = [J("parser","VH_selftest"), J("lexer","VH_selftest")]
 for pid in ("C02","C03","C04","C05","C06","C07","C11","C12","C13","C14","C15","C16","C17"):
